@@ -119,6 +119,24 @@ func (sc *Scope) call(e ECall) Val {
 			return boolVal(t)
 		}
 		return Val{T: t, Ty: rt}
+	case "selected", "offers":
+		// selected(ch): the function's (last, in program order) select statement completed with the case on channel ch;
+		// offers(ch): that select has a case on channel ch
+		argN(1)
+		ch := sc.eval(e.Args[0])
+		ls := x.lastSel
+		if ls == nil {
+			sc.fail("%s(): no select statement has been executed", e.Fun)
+		}
+		var ds []string
+		for i, t := range ls.chans {
+			if e.Fun == "selected" {
+				ds = append(ds, and(eq(t, ch.T), eq(ls.idx, ls.lits[i])))
+			} else {
+				ds = append(ds, eq(t, ch.T))
+			}
+		}
+		return boolVal(or(ds...))
 	case "lastnow":
 		// lastnow(): the value returned by the most recent time.Now() call on this path
 		argN(0)
@@ -232,8 +250,31 @@ func (sc *Scope) call(e ECall) Val {
 			return sc.pureMethod(recv, e.Fun[i+1:], e.Args)
 		}
 	}
+	// T(x): conversion to a named type with the same representation (e.g. a named string type)
+	if len(e.Args) == 1 {
+		if t := sc.tryType(e.Fun); t != nil {
+			v := sc.eval(e.Args[0])
+			if v.Ty != nil && types.Identical(v.Ty.Underlying(), t.Underlying()) {
+				v.Ty = t
+				return v
+			}
+			if v.K == "const" {
+				return sc.convertConst(v, t)
+			}
+		}
+	}
 	sc.fail("unknown function %s", e.Fun)
 	return Val{}
+}
+
+func (sc *Scope) tryType(name string) (t types.Type) {
+	defer func() {
+		if r := recover(); r != nil {
+			t = nil
+		}
+	}()
+	t, _ = sc.typeByName(name)
+	return t
 }
 
 type SpecUF struct {
